@@ -126,3 +126,55 @@ fn c05_span_skip_expect() {
     kani::cover!(k == 0 && len == 3 && buf[0] == b'\t');
     kani::cover!(len == 3 && buf[0] == b'&' && buf[1] == b'&');
 }
+
+/// take / take_while / skip_space on text that starts with a multi-byte
+/// character: `<c><a>` with c any 2-byte UTF-8 character and a any ASCII
+/// character. Consumed spans must end on character boundaries (a span cut by
+/// byte count panics when sliced) and count CHARACTERS, not bytes.
+#[kani::proof]
+#[kani::unwind(5)]
+fn c05_take_non_ascii() {
+    let lead: u8 = kani::any();
+    let cont: u8 = kani::any();
+    let a: u8 = kani::any();
+    kani::assume((0xc2..=0xdf).contains(&lead) && (0x80..=0xbf).contains(&cont) && a < 0x80);
+    let buf = [lead, cont, a];
+    let with_ascii: bool = kani::any();
+    let len = if with_ascii { 3 } else { 2 };
+    let nchars = len - 1;
+    // valid UTF-8 by construction
+    let s = unsafe { std::str::from_utf8_unchecked(&buf[..len]) };
+    let n: usize = kani::any();
+    kani::assume(n <= 3);
+    let res = take(s, n);
+    match &res {
+        Ok((taken, rest)) => {
+            assert!(n <= nchars, "take succeeded on a too short input");
+            let bytes = if n == 0 { 0 } else { n + 1 };
+            assert!(off(s, taken) == 0 && taken.len() == bytes, "taken span is not the first n characters");
+            assert!(off(s, rest) == bytes && rest.len() == len - bytes, "rest does not follow the taken span");
+        }
+        Err((LexErrorKind::CountMismatch { actual, expected, .. }, span)) => {
+            assert!(n > nchars, "take failed although enough characters were available");
+            assert!(*actual == nchars && *expected == n, "count mismatch does not count characters");
+            assert!(off(s, span) == 0 && span.len() == len);
+        }
+        Err(_) => assert!(false, "unexpected error kind"),
+    }
+    std::mem::forget(res);
+    // take_while over non-ASCII characters stops at the ASCII one
+    let res = take_while(s, "wide", |c| !c.is_ascii());
+    match &res {
+        Ok((taken, rest)) => {
+            assert!(off(s, taken) == 0 && taken.len() == 2 && off(s, rest) == 2 && rest.len() == len - 2, "take_while split inside or after the wrong character");
+        }
+        Err(_) => assert!(false, "take_while rejected a matching first character"),
+    }
+    std::mem::forget(res);
+    // skip_space does not touch a non-ASCII first character
+    let r = skip_space(s);
+    assert!(off(s, r) == 0 && r.len() == len);
+    kani::cover!(n == 1 && with_ascii);
+    kani::cover!(n == 2 && !with_ascii);
+    kani::cover!(n == 2 && with_ascii && a == b' ');
+}
